@@ -17,7 +17,7 @@ func init() {
 			Property: "C15",
 			Rule: "B: every string of length <=6 (quick) / 7 (thorough) over the byte alphabet { [ ] / = \" \\ space a 1 . : 0xC3 0xA9 0xFF }; T: every assembly of <=4 (quick) / 5 (thorough) tokens from a vocabulary of marker fragments " +
 				"([a, ], [/a], [/], /], =1, =1., =\"x, \", [select value=, [nomarkup], [/nomarkup], trimwhitespace=1, whitespace, multi-byte text, a character prefix ...); " +
-				"N: every assembly of <=5 (quick) / 6 (thorough) items from nomarkup blocks holding fragments of multi-byte characters, markers and text; each parsed by a fresh LineParser; H: every sequence of 2-3 lines of the C14 line alphabet (incl. refused lines) parsed by one reused LineParser; oracle: returns (no panic; hangs are caught by the worker watchdog), every attribute has 0<=Position, 0<=Length, Position+Length<=characters(Text), and TextForAttribute of every returned attribute does not panic; " +
+				"N: every assembly of <=5 (quick) / 6 (thorough) items from nomarkup blocks holding fragments of multi-byte characters, markers and text; D: numeric property values with 1-25 integer digits and 0-45 fraction digits (4 digit patterns each) in three marker positions; each parsed by a fresh LineParser; H: every sequence of 2-3 lines of the C14 line alphabet (incl. refused lines) parsed by one reused LineParser, every earlier result re-checked after each later parse; oracle: returns (no panic; hangs are caught by the worker watchdog), every attribute has 0<=Position, 0<=Length, Position+Length<=characters(Text), and TextForAttribute of every returned attribute does not panic; " +
 				"a case is one string; non-trivial = contains a '['",
 			StatesMean:  "distinct input strings; transitions = ParseMarkup + TextForAttribute calls",
 			Assumptions: []string{"strings beyond the length bound / outside the alphabets are not explored"},
@@ -43,17 +43,24 @@ func safeParseWith(lp *markup.LineParser, s string) (clause, detail string, res 
 	if res == nil {
 		return "markup-nil", "ParseMarkup returned neither a result nor an error", nil, nil
 	}
+	clause, detail = resultSafe(res)
+	return clause, detail, res, nil
+}
+
+// resultSafe checks that a parse result can be used: every attribute lies inside the text and TextForAttribute
+// returns.
+func resultSafe(res *markup.ParseResult) (clause, detail string) {
 	n := utf8.RuneCountInString(res.Text)
 	for _, a := range res.Attributes {
 		if a.Position < 0 || a.Length < 0 || a.Position+a.Length > n {
-			return "markup-range", fmt.Sprintf("attribute %q has position %d length %d, the text %q has %d characters", a.Name, a.Position, a.Length, res.Text, n), res, nil
+			return "markup-range", fmt.Sprintf("attribute %q has position %d length %d, the text %q has %d characters", a.Name, a.Position, a.Length, res.Text, n)
 		}
 		a := a
 		if p := guard(func() { _ = res.TextForAttribute(a) }); p != nil {
-			return "markup-textforattribute-panic", fmt.Sprintf("TextForAttribute(%+v) panicked on text %q: %v", a, res.Text, p), res, nil
+			return "markup-textforattribute-panic", fmt.Sprintf("TextForAttribute(%+v) panicked on text %q: %v", a, res.Text, p)
 		}
 	}
-	return "", "", res, nil
+	return "", ""
 }
 
 func c15Case(ctx *report.Ctx, c *explore.Chooser, partName, s string) {
@@ -78,7 +85,8 @@ func c15Case(ctx *report.Ctx, c *explore.Chooser, partName, s string) {
 }
 
 var c15Tokens = []string{"[a", "]", "[/a]", "[/]", "/]", "[b]", "[/b]", "=1", "=1.", "=1.5", "=\"x", "\"", "=x", " ", "a", "é", "\xff", "\\[", "\\", ":", "Bob: ",
-	"[select value=", "[select value=a a=b/]", "[plural value=1", " one=\"%\"", "[nomarkup]", "[/nomarkup]", " trimwhitespace=1", " trimwhitespace=false", "[a/]", "[ordinal value=x", "[/select]", "[a=", "%", "[a x=-1]"}
+	"[select value=", "[select value=a a=b/]", "[plural value=1", " one=\"%\"", "[nomarkup]", "[/nomarkup]", " trimwhitespace=1", " trimwhitespace=false", "[a/]", "[ordinal value=x", "[/select]", "[a=", "%", "[a x=-1]",
+	"=0.3333333333333333", "=1.30000000000000004000000", "=99999999999999999999"}
 
 func runC15(ctx *report.Ctx) {
 	alphabet := []byte{'[', ']', '/', '=', '"', '\\', ' ', 'a', '1', '.', ':', 0xC3, 0xA9, 0xFF}
@@ -133,17 +141,66 @@ func runC15(ctx *report.Ctx) {
 		}
 		ctx.Current(fmt.Sprintf("H: %q", seq))
 		var lp markup.LineParser
+		var earlier []*markup.ParseResult
+	sequence:
 		for i, l := range seq {
-			clause, detail, _, _ := safeParseWith(&lp, l)
+			clause, detail, res, _ := safeParseWith(&lp, l)
 			ctx.AddTransitions(1)
 			if clause != "" {
 				ctx.Violation(report.Violation{Clause: clause + "-reused-parser", Witness: fmt.Sprintf("markup sequence %q", seq[:i+1]), Detail: "on a LineParser that has parsed the preceding lines: " + detail, Choices: c.Choices(), Part: "H"})
 				break
 			}
+			// the results handed out before are still held by the caller (the runner returns all options of a choice
+			// together): they must stay usable after the parser was used again
+			for j, old := range earlier {
+				if old == nil {
+					continue
+				}
+				if clause, detail := resultSafe(old); clause != "" {
+					ctx.Violation(report.Violation{Clause: clause + "-earlier-result", Witness: fmt.Sprintf("markup sequence %q, result of line %d", seq[:i+1], j), Detail: "the result of an earlier line, read after the same LineParser parsed the later lines: " + detail, Choices: c.Choices(), Part: "H"})
+					break sequence
+				}
+			}
+			earlier = append(earlier, res)
 		}
 		ctx.AddEvals(1, 1)
 		ctx.AddStates(1)
 		ctx.AddTraces(1)
+	})
+	// D: digit runs. Numeric property values whose integer part has 1..25 digits and whose fraction has 0..45
+	// digits, four digit patterns each, in three positions (marker property, self-closing, plural value)
+	part(ctx, "D", -1, func(c *explore.Chooser) {
+		ni := 1 + c.Choose(25, "int-digits")
+		nf := c.Choose(46, "fraction-digits")
+		if !c.Mine() {
+			return
+		}
+		pat := func(k, n int) string {
+			switch k {
+			case 0:
+				return strings.Repeat("3", n)
+			case 1:
+				return strings.Repeat("9", n)
+			case 2:
+				return strings.Repeat("0", n)
+			}
+			if n == 0 {
+				return ""
+			}
+			return strings.Repeat("0", n-1) + "4"
+		}
+		num := pat(c.Choose(4, "int-pattern"), ni)
+		if nf > 0 {
+			num += "." + pat(c.Choose(4, "fraction-pattern"), nf)
+		}
+		switch c.Choose(3, "position") {
+		case 0:
+			c15Case(ctx, c, "D", "x [a v="+num+"]y[/a] z")
+		case 1:
+			c15Case(ctx, c, "D", "x [a="+num+" /] z")
+		case 2:
+			c15Case(ctx, c, "D", "[plural value="+num+" one=\"% a\" other=\"% b\" /]")
+		}
 	})
 	maxTok := report.Pick(ctx, 4, 5)
 	ctx.Bound("token_assembly_length", maxTok)
